@@ -1,11 +1,13 @@
 #!/bin/sh
-# usage: tools_run_seeded.sh <seeded-dir> [property ids...]  -- applies the patch to /repo, runs the checks, reverts
+# usage: tools_run_seeded.sh <seeded-dir> [property ids...]
+# applies the patch to /repo, runs the checks of the properties it breaks, reverts the patch.
 d=$1; shift
-pid=$(python3 -c "import json,sys;print(json.load(open('$d/meta.json'))['property'])")
-[ $# -gt 0 ] && pids="$@" || pids=$pid
+pids=$(python3 -c "import json;m=json.load(open('$d/meta.json'));print(' '.join([m['property']]+m.get('also',[])))")
+[ $# -gt 0 ] && pids="$@"
 git -C /repo apply "$PWD/$d/patch.diff" || { echo "APPLY FAILED $d"; exit 3; }
 for p in $pids; do
   ./check $p > work/seeded_out.txt 2>&1; rc=$?
-  echo "== $d $p exit=$rc"; grep -E "VIOLATION|KNOWN|INFRA|Error|quick:" work/seeded_out.txt | head -5
+  echo "== $d $p exit=$rc $(grep -c VIOLATION work/seeded_out.txt) violation line(s): $(grep -m1 VIOLATION work/seeded_out.txt)"
+  tail -1 work/seeded_out.txt
 done
 git -C /repo checkout -- .
